@@ -39,6 +39,9 @@ func init() {
 			handlerLookup(r)
 			unitAgreement(r)
 			c07ClientTargetsOwner(r)
+			c15NullReplyIsNoValue(r)
+			c15DeleteSendsOwnersKeys(r)
+			c15ErrorsKeepTheirPrefix(r)
 		},
 	})
 }
